@@ -1,6 +1,7 @@
 """C19 - the command-line tool never loses or silently damages user data.
 Kill points are enumerated exhaustively with a ptrace supervisor (h/killat.c): for every syscall index k of every invocation the
 process tree is SIGKILLed just before syscall k and the file-system state is judged by the library decoder + R (never by the CLI)."""
+import re
 import os, sys, glob, shutil, subprocess, hashlib, random, json, time
 from concurrent.futures import ThreadPoolExecutor
 from vlib import build, core
@@ -168,7 +169,10 @@ def run(prop, tier, seed, t0):
         # count run (also the end-state of the unkilled invocation)
         d0 = os.path.join(R.tmp, 'run-%d-count' % si)
         shutil.copytree(tmpl, d0)
-        p = subprocess.run([env.killat, 'count', '--', env.cli, '-q'] + sc['argv'], cwd=d0, stdout=subprocess.PIPE, text=True)
+        slog = os.path.join(R.tmp, 'syscalls-%d.log' % si)
+        p = subprocess.run([env.killat, 'count', '--', env.cli, '-q'] + sc['argv'], cwd=d0, stdout=subprocess.PIPE, text=True, env=dict(os.environ, KILLAT_LOG=slog))
+        # indices of rt_sigaction(SIGINT, ...) calls: installation and removal of the interrupt handler alternate (addHandler / clearHandler)
+        sigint_calls = [int(l.split()[0]) for l in open(slog).read().split('\n') if l and l.split()[1] == '13' and l.split()[2] == '2'] if os.path.exists(slog) else []
         try:
             N = int(p.stdout.split('N=')[1].split()[0])
         except Exception:
@@ -190,14 +194,16 @@ def run(prop, tier, seed, t0):
                 extra = []
                 if mode == 'int':
                     # after SIGINT the tool must leave no partial destination behind
-                    for src, dst, kind in sc['pairs']:
-                        if dst and st.find('partial') >= 0:
-                            extra.append(('sigint:partial-destination-left-behind', '%s: SIGINT at syscall %d (%s): destination %s left incomplete' % (sc['name'], k, q.stdout.strip(), dst)))
+                    parts = st.split('+')
+                    for pi, (src, dst, kind) in enumerate(sc['pairs']):
+                        if dst and pi < len(parts) and parts[pi].endswith(':partial'):
+                            extra.append(('sigint:partial-destination-left-behind', '%s: SIGINT at syscall %d (%s): destination %s left incomplete' % (sc['name'], k, q.stdout.strip(), dst), pi))
                             break
                 return k, q.stdout.strip(), vv + extra, st
             finally:
                 shutil.rmtree(d, ignore_errors=True)
 
+        created_at = {}     # per pair: first kill point at which its destination already exists = index of the syscall following its creation
         k_created = None    # first kill point at which a destination already exists = index of the syscall following its creation
         with ThreadPoolExecutor(core.NPROC) as ex:
             for k, outp, vv, st in ex.map(one, ksweep):
@@ -205,6 +211,9 @@ def run(prop, tier, seed, t0):
                 states.setdefault(sc['name'], set()).add(st)
                 if k_created is None and ('partial' in st or 'complete' in st) and not sc.get('keep'):
                     k_created = k
+                for pi, part in enumerate(st.split('+')):
+                    if not part.endswith(':absent') and pi not in created_at:
+                        created_at[pi] = k
                 for key, msg in vv:
                     add(key, msg + ' after SIGKILL just before syscall %d of %d (%s)' % (k, N, outp), si * 100000 + k)
         if len(samples) < 6:
@@ -214,11 +223,97 @@ def run(prop, tier, seed, t0):
             with ThreadPoolExecutor(core.NPROC) as ex:
                 for k, outp, vv, st in ex.map(lambda kk: one(kk, 'int'), ksweep[:N]):
                     stats['int_runs'] += 1
-                    for key, msg in vv:
-                        if key.startswith('sigint:partial') and k_created is not None:
-                            # where in the life of the destination did the interrupt arrive?
-                            key += ':around-destination-creation(before-handler-installation)' if -8 <= k - k_created <= 10 else ':later'
+                    for item in vv:
+                        key, msg = item[0], item[1]
+                        if key.startswith('sigint:partial'):
+                            # where in the life of this destination did the interrupt arrive? The handler is installed after the creation of the destination
+                            # (deliberately, F21a) and removed once it is closed: rt_sigaction(SIGINT) calls alternate install / remove; the tracer reports how many
+                            # of them, and whether a file creation since the last one, preceded the interrupt IN THIS RUN (syscall indices differ between runs).
+                            m_ = re.search(r'sigint_actions_before=(\d+) creat_after_last_sigint_action=(\d+)', outp); ran = 'status=exit 2' in outp
+                            nact, creat = (int(m_.group(1)), int(m_.group(2))) if m_ else (-1, 0)
+                            if ran: key += ':handler-ran'
+                            elif nact >= 0 and nact % 2 == 0 and creat: key += ':around-destination-creation(before-handler-installation)'
+                            elif nact >= 0 and nact % 2 == 0: key += ':after-handler-removal'
+                            else: key += ':handler-installed-but-default-action'
                         add(key, msg + ' [SIGINT k=%d, destination created at k=%s]' % (k, k_created), si * 100000 + 50000 + k)
+        # SIGINT handled on ANOTHER thread (process-directed signal while the stopped thread is not eligible): the handler deletes the artefact while
+        # the main thread keeps running towards --rm. Only the data-recoverability rule is judged here (keys carry the delivery mode).
+        if sc['name'] in ('compress-rm', 'decompress-rm') or (thorough and '--rm' in sc['argv']):
+            lo = max(1, (k_created or 1) - 2)
+            with ThreadPoolExecutor(core.NPROC) as ex:
+                for rep in range(3 if thorough else 2):
+                    for k, outp, vv, st in ex.map(lambda kk: one(kk, 'intany'), list(range(lo, N + 1))):
+                        stats['intany_runs'] = stats.get('intany_runs', 0) + 1
+                        for key, msg in vv:
+                            if key.startswith('data-loss'):
+                                add('sigint-handled-on-worker-thread:' + key, msg + ' [process-directed SIGINT at k=%d of %d, handler ran on a pool thread while the main thread went on]' % (k, N), si * 100000 + 70000 + k)
+        shutil.rmtree(tmpl, ignore_errors=True)
+
+    # ------------------------------------------------------------------ injected I/O faults (strace -e inject): the k-th write / read / close / openat of the
+    # process tree fails with ENOSPC / EIO / EACCES. When the failed call was on a source or destination of the invocation the operation has failed:
+    # non-zero exit, no (partial) destination left behind, and - as always - no data loss.
+    stats['iofault_runs'] = 0; stats['iofault_fired_on_operands'] = 0; stats['iofault_cells'] = {}
+    fault_scs = [sc for sc in scenarios(random.Random(seed * 7919 + 19), thorough) if sc['name'] in ('compress-rm', 'decompress-rm', 'compress-force-rm', 'compress-two-rm', 'decompress-big-rm', 'compress-T2-rm-big', 'decompress-sparse-rm', 'compress-o-rm', 'compress-outdir-rm')]
+    FAULTS = [('write', 'ENOSPC'), ('write', 'EIO'), ('read', 'EIO'), ('close', 'EIO'), ('openat', 'EACCES')]
+    for si, sc in enumerate(fault_scs):
+        tmpl = os.path.join(R.tmp, 'ftmpl-%d' % si)
+        orig_plain_t = materialise(env, sc, tmpl)
+        init_hash = {n.rstrip('!'): sha(os.path.join(tmpl, n.rstrip('!'))) for n in sc['files']}
+        operands = set()
+        for src, dst, kind in sc['pairs']:
+            operands.add(src)
+            if dst: operands.add(dst)
+
+        def fone(arg):
+            sysc, errn, k = arg
+            d = os.path.join(R.tmp, 'frun-%d-%s-%s-%d' % (si, sysc, errn, k))
+            shutil.copytree(tmpl, d)
+            try:
+                log = os.path.join(d, '.strace.log')
+                q = subprocess.run(['strace', '-f', '-y', '-q', '-o', log, '-e', 'trace=' + sysc, '-e', 'inject=%s:error=%s:when=%d' % (sysc, errn, k), env.cli, '-q'] + sc['argv'],
+                                   cwd=d, stdout=subprocess.PIPE, stderr=subprocess.PIPE, text=True, errors='replace', timeout=300)
+                inj = [l for l in open(log, errors='replace').read().split('\n') if '(INJECTED)' in l] if os.path.exists(log) else []
+                try: os.unlink(log)
+                except OSError: pass
+                if not inj:
+                    return arg, None, q.returncode, [], ''
+                m = re.search(r'<([^>]*)>', inj[0]) or re.search(r'"([^"]*)"', inj[0])
+                path = m.group(1) if m else ''
+                rel = os.path.relpath(path, d) if path.startswith(d + '/') else None
+                vv, st = judge_state(env, sc, d, init_hash, orig_plain_t)
+                extra = []
+                if rel in operands and not (sysc == 'close' and rel in [p_[0] for p_ in sc['pairs']]):     # a failed close of a SOURCE is harmless
+                    if q.returncode == 0:
+                        extra.append(('io-fault:failed-operation-exits-0', '%s: %s(%s) failed with %s, exit status 0' % (sc['name'], sysc, rel, errn)))
+                    for src, dst, kind in sc['pairs']:
+                        if dst and rel in (src, dst):
+                            dp = os.path.join(d, dst)
+                            if os.path.exists(dp):
+                                okd = env.verify(dp, orig_plain_t[src]) if kind == 'c' else sha(dp) == sha(orig_plain_t[src])
+                                if not okd and not (dst in init_hash and sha(dp) == init_hash[dst]):     # an untouched pre-existing destination is not an output of this run
+                                    extra.append(('io-fault:partial-destination-left-behind:%s-%s:%s' % (sysc, 'destination' if rel == dst else 'source', 'empty-destination' if os.path.getsize(dp) == 0 else 'non-empty-destination'), '%s: %s(%s) failed with %s (exit %d): %s left with %d bytes: %s' % (sc['name'], sysc, rel, errn, q.returncode, dst, os.path.getsize(dp), q.stderr.strip()[-120:])))
+                return arg, rel, q.returncode, vv + extra, st
+            finally:
+                shutil.rmtree(d, ignore_errors=True)
+
+        for sysc, errn in FAULTS:
+            k0 = 1
+            done = False
+            while not done and k0 < 400:
+                batch = [(sysc, errn, k) for k in range(k0, k0 + core.NPROC)]
+                k0 += core.NPROC
+                with ThreadPoolExecutor(core.NPROC) as ex:
+                    for arg, rel, rc, vv, st in ex.map(fone, batch):
+                        if rel is None and not vv and st == '':
+                            done = True      # k beyond the number of such calls
+                            continue
+                        stats['iofault_runs'] += 1
+                        if rel in operands:
+                            stats['iofault_fired_on_operands'] += 1
+                            cell = '%s|%s(%s)|exit%s' % (sc['name'], arg[0], 'dst' if rel in [p_[1] for p_ in sc['pairs']] else 'src', 'nonzero' if rc else '0')
+                            stats['iofault_cells'][cell] = stats['iofault_cells'].get(cell, 0) + 1
+                        for key, msg in vv:
+                            add(key, msg + ' [injected %s %s at call %d]' % (arg[0], arg[1], arg[2]), 900000 + si * 10000 + arg[2])
         shutil.rmtree(tmpl, ignore_errors=True)
 
     # ------------------------------------------------------------------ end-state checks
@@ -315,10 +410,10 @@ def run(prop, tier, seed, t0):
     res.viol += viol
     nstates = sum(len(v) for v in states.values())
     cov = {
-        'evaluations': stats['kill_runs'] + stats['int_runs'] + stats['endstate_checks'], 'distinct_nontrivial': stats['kill_runs'],
+        'evaluations': stats['kill_runs'] + stats['int_runs'] + stats['endstate_checks'] + stats['iofault_runs'], 'iofault_runs': stats['iofault_runs'], 'iofault_fired_on_sources_or_destinations': stats['iofault_fired_on_operands'], 'iofault_cells': stats['iofault_cells'], 'distinct_nontrivial': stats['kill_runs'],
         'rule': 'invocation grammar (compress / decompress, --rm, -f, -o, several files, --output-dir-flat, -T2/-T0, --long, --sparse/--no-sparse, pre-existing destinations) x EVERY syscall index k = 1..N+11 of the process tree (exhaustive; N measured per invocation): SIGKILL just before syscall k, then a state oracle (hashes + library decoder + R) decides "source intact or destination complete" and "existing destination untouched without -f"; '
-                'SIGINT at each k for the simple invocations; end-state checks for damaged inputs, file lists, -t, sparse vs non-sparse layouts. distinct non-trivial = kill points executed (each is a distinct crash point)',
-        'exhaustive': True, 'invocations': stats['invocations'], 'kill_runs': stats['kill_runs'], 'sigint_runs': stats['int_runs'], 'endstate_checks': stats['endstate_checks'], 'syscalls_per_invocation': stats['kill_points'],
+                'SIGINT at each k for the simple invocations; injected I/O faults (strace: every k-th write ENOSPC/EIO, read EIO, close EIO, openat EACCES of the process tree; when the failed call was on a source/destination: non-zero exit, no partial destination, no data loss); end-state checks for damaged inputs, file lists, -t, sparse vs non-sparse layouts. distinct non-trivial = kill points executed (each is a distinct crash point)',
+        'exhaustive': True, 'invocations': stats['invocations'], 'kill_runs': stats['kill_runs'], 'sigint_runs': stats['int_runs'], 'sigint_on_worker_thread_runs': stats.get('intany_runs', 0), 'endstate_checks': stats['endstate_checks'], 'syscalls_per_invocation': stats['kill_points'],
         'distinct_filesystem_states_seen': {k: sorted(v) for k, v in states.items()}, 'distinct_states_total': nstates, 'samples': samples,
     }
     assumptions = ['SIGKILL of the process tree does not lose page-cache data; OS-crash durability is outside the property', 'CLI built from the tree without gzip/lzma/lz4', 'the oracle is the library decoder + R, never the CLI', 'thread schedules vary between runs: the oracle is state based, N+11 covers the variation']
